@@ -300,6 +300,15 @@ func runC09Scenario(rec *Recorder, sc c09Scenario) {
 		}
 		rf.Spec.CfgMap = m
 	}
+	if sc.FanKind == "cmd" {
+		// the optional commands of a command fan: in some scenarios only setPwm (and getRpm) is configured
+		switch sc.Idx % 5 {
+		case 3:
+			rf.Spec.NoGetPwm = true
+		case 4:
+			rf.Spec.NoGetPwm, rf.Spec.NoGetRpm = true, true
+		}
+	}
 	rf.CurveID = "c09curve"
 	var sensor sensors.Sensor
 	sensorDir := filepath.Join(dir, "sensor")
@@ -359,7 +368,15 @@ func runC09Scenario(rec *Recorder, sc c09Scenario) {
 	wg.Add(1)
 	go func() {
 		defer wg.Done()
-		_ = internal.NewSensorMonitor(sensor, 200*time.Millisecond).Run(ctx)
+		err := internal.NewSensorMonitor(sensor, 200*time.Millisecond).Run(ctx)
+		// (RunDaemon's actor for a sensor monitor: an error is a panic; and an actor that returns takes the whole run
+		// group - the daemon - down with it)
+		if err != nil {
+			panic(err)
+		}
+		if ctx.Err() == nil {
+			panic("sensor monitor ended while the daemon is running")
+		}
 	}()
 	// --- fault injection relative to completed control cycles
 	cmdSub := filepath.Join(dir, "cmd_f1")
